@@ -181,6 +181,7 @@ package keeper
 //@ requires [slash_amount_at_least_twenty_loya] dispute.SlashAmount >= 20
 //@ requires [round_counter_fits_int64] dispute.DisputeRound < 9223372036854775808
 //@ modifies dispute.Disputes, dispute.Votes, reporter.*, staking.*, bank.bal, dispute.DisputeFeePayer, A_*
+//@ ensures [only_the_sender_the_staking_pool_and_the_dispute_escrow_change_balance] forall a addr :: a != acc(sender) && a != module("dispute") && a != module("bonded_tokens_pool") ==> bank.bal[a] == old(bank.bal[a])
 //@ ensures [only_an_open_unresolved_unexpired_dispute_gets_a_new_round] err == nil ==> dispute.DisputeStatus == types.Unresolved && dispute.Open && dispute.DisputeEndTime >= blocktime(ctx)
 //@ ensures [superseded_round_is_closed_and_not_pending_execution] err == nil ==> has(dispute.Disputes, dispute.DisputeId) && !dispute.Disputes[dispute.DisputeId].Open && !dispute.Disputes[dispute.DisputeId].PendingExecution
 //@ ensures [new_round_is_stored_under_an_unused_id_and_votes_start] err == nil ==> ret(NextDisputeId, 0) != dispute.DisputeId && has(dispute.Disputes, ret(NextDisputeId, 0)) && dispute.Disputes[ret(NextDisputeId, 0)].DisputeStatus == types.Voting && dispute.Disputes[ret(NextDisputeId, 0)].DisputeRound == dispute.DisputeRound + 1 && dispute.Disputes[ret(NextDisputeId, 0)].DisputeId == ret(NextDisputeId, 0) && has(dispute.Votes, ret(NextDisputeId, 0)) && dispute.Votes[ret(NextDisputeId, 0)].VoteStart == blocktime(ctx) && dispute.Votes[ret(NextDisputeId, 0)].VoteEnd == blocktime(ctx) + 172800000000000
@@ -200,8 +201,10 @@ package keeper
 //@ requires [the_disputed_report_was_submitted_with_the_stated_value_and_power] submitted(report)
 //@ requires [reporter_is_an_address] bech32ok(report.Reporter)
 //@ modifies oracle.Aggregates, reporter.*, staking.*, bank.bal, H_*, A_*
+//@ ensures [only_pools_and_escrow_touched] forall a addr :: a != module("dispute") && a != module("bonded_tokens_pool") && a != module("not_bonded_tokens_pool") ==> bank.bal[a] == old(bank.bal[a])
 
 //@ func (k msgServer).ProposeDispute(goCtx, msg) (resp, err)
+//@ ensures [only_the_signer_the_staking_pools_and_the_dispute_escrow_change_balance] forall a addr :: a != addrstr(msg.Creator) && a != module("dispute") && a != module("bonded_tokens_pool") && a != module("not_bonded_tokens_pool") ==> bank.bal[a] == old(bank.bal[a])
 //@ requires [validators_have_delegator_shares] forall v bytes :: has(staking.validators, v) ==> staking.validators[v].DelegatorShares > 0
 //@ requires [msg_present] msg != nil && msg.Report != nil
 //@ requires [stated_power_fits_int64] msg.Report.Power < 9223372036854775808
@@ -212,6 +215,7 @@ package keeper
 //@ define paid(i, a) = has(dispute.DisputeFeePayer, pair(i, a)) ? dispute.DisputeFeePayer[pair(i, a)].Amount : 0
 
 //@ func (k msgServer).AddFeeToDispute(goCtx, msg) (resp, err)
+//@ ensures [only_the_signer_the_staking_pools_and_the_dispute_escrow_change_balance] forall a addr :: a != addrstr(msg.Creator) && a != module("dispute") && a != module("bonded_tokens_pool") && a != module("not_bonded_tokens_pool") ==> bank.bal[a] == old(bank.bal[a])
 //@ requires [validators_have_delegator_shares] forall v bytes :: has(staking.validators, v) ==> staking.validators[v].DelegatorShares > 0
 //@ requires [msg_present] msg != nil
 //@ requires [stored_evidence_is_a_submitted_report] forall i int :: has(dispute.Disputes, i) ==> submitted(dispute.Disputes[i].InitialEvidence) && bech32ok(dispute.Disputes[i].InitialEvidence.Reporter)
